@@ -13,7 +13,8 @@ EXPLANATION = (
     "post-conversion pass that inspects calls, the set of AST slots (ADT, variant, field) whose "
     "value reaches one of its calls is computed from the effective methods (override or default) "
     "and compared with the ADT table: every field that can contain an expression must be descended "
-    "into; (R2) built-in argument contract; (R3) every constructible run-time error has a code; "
+    "into; (R2) built-in argument contract: where a built-in's run() reads argument k with the unchecked "
+    "string accessor, its lint() demands a string at k on every accepting path; (R3) every constructible run-time error has a code; "
     "(R4) every label the generator leaves symbolic is checked and resolved; (R5) no reachable "
     "todo!/unimplemented!; (R6) explicit panic sites reachable from generate_instructions and "
     "Interpreter::interpret (in rusty_basic and the value crates it calls) are each audited, and the "
